@@ -26,7 +26,15 @@ pub fn arg_expr(l: &Layout, ty: &FieldTy) -> String {
             let v = e.variants.iter().find(|v| v.cfg != Cfg::Never).expect("enum without enabled variant");
             format!("{}::{}", e.name, v.name)
         }
-        FieldTy::Nested { idx } => format!("{}::ZERO", l.inners[*idx].name),
+        FieldTy::Nested { idx } => {
+            let i = &l.inners[*idx];
+            if i.handwritten != 0 {
+                // a hand-written field type offers the two conversions and nothing else
+                format!("{}::new_with_raw_value({})", i.name, crate::emit::to_base(i.base_bits, "0u128"))
+            } else {
+                format!("{}::ZERO", i.name)
+            }
+        }
     }
 }
 
@@ -219,6 +227,25 @@ fn c14_systematic() -> Vec<Layout> {
             v.push(lay(b, vec![rep]));
         }
     }
+    // a writable field overlapping a writable field that is NOT its direct predecessor in the declaration (and
+    // not overlapping the predecessor): three and four fields, the overlapped one first / in the middle, with
+    // read-only and write-only fields in between
+    for b in [16u32, 32, 64, 128, 24, 65] {
+        let f = |n: &str, lo: u32, hi: u32, acc: Access| fld(n, lo, hi - lo + 1, uty(hi - lo + 1), acc);
+        v.push(lay(b, vec![f("a", 0, 7, Access::RW), f("b", 12, 15, Access::RW), f("c", 4, 11, Access::RW)]));
+        v.push(lay(b, vec![f("a", 0, 7, Access::RW), f("b", 12, 15, Access::W), f("c", 4, 11, Access::W)]));
+        v.push(lay(b, vec![f("a", 8, 15, Access::RW), f("b", 0, 3, Access::RW), f("c", 4, 8, Access::RW)]));
+        v.push(lay(b, vec![f("a", 0, 3, Access::RW), f("b", 4, 7, Access::RW), f("c", 8, 11, Access::RW), f("d", 3, 3, Access::RW)]));
+        v.push(lay(b, vec![f("a", 0, 3, Access::RW), f("b", 4, 7, Access::RW), f("c", 8, 11, Access::RW), f("d", 12, 15, Access::RW), f("e", 7, 8, Access::RW)]));
+        v.push(lay(b, vec![f("a", 0, 7, Access::RW), f("r", 8, 11, Access::R), f("b", 12, 15, Access::RW), f("c", 7, 10, Access::RW)]));
+        // the same shapes without the overlap (control)
+        v.push(lay(b, vec![f("a", 0, 3, Access::RW), f("b", 12, 15, Access::RW), f("c", 4, 11, Access::RW)]));
+        // an array whose later element overlaps an earlier scalar, with a field in between
+        let mut arr = fld("arr", 8, 2, uty(2), Access::RW);
+        arr.array = Some(ArrayDecl { count: 4, stride: None, colon: false });
+        v.push(lay(b, vec![f("a", 0, 3, Access::RW), f("b", 4, 7, Access::RW), arr.clone(), f("z", 15, 15, Access::RW)]));
+        v.push(lay(b, vec![f("z", 14, 15, Access::RW), f("a", 0, 3, Access::RW), f("b", 4, 7, Access::RW), arr]));
+    }
     // no writable field at all: with a default the (empty) builder chain must still be offered, without
     // one it must not
     for b in [8u32, 32, 128, 7, 24, 100] {
@@ -385,6 +412,17 @@ pub fn run_c14(rc: &RunCtx) -> Outcome {
             let steps: Vec<usize> = (0..l.fields.len()).filter(|i| l.fields[*i].access.writable()).collect();
             probes.push(Probe { name: "full-chain".into(), code: format!("pub fn p_full() -> S {{ {}.build() }}", chain(l, &steps)), must_compile: true, what: "complete in-order chain".into() });
             probes.push(Probe { name: "full-chain-const".into(), code: format!("pub const P_FULL: S = {}.build();", chain(l, &steps)), must_compile: true, what: "complete in-order chain in const context".into() });
+            // a complete builder state must not be obtainable out of thin air: the type of the complete chain is
+            // named through inference only (the closure is never called), and `Default::default()` of it would
+            // be a state on which build() type-checks although no field was supplied
+            if !steps.is_empty() {
+                probes.push(Probe {
+                    name: "conjure-final-state".into(),
+                    code: format!("pub fn p_conjure() -> S {{ fn conjure<T: Default>(_: fn() -> T) -> T {{ T::default() }} conjure(|| {}).build() }}", chain(l, &steps)),
+                    must_compile: false,
+                    what: "build() on a complete builder state created by Default::default() instead of by the with_ steps".into(),
+                });
+            }
             // every proper prefix followed by build()
             for k in probe_positions(steps.len()) {
                 probes.push(Probe {
@@ -537,11 +575,29 @@ fn probes_for_field(l: &Layout, fi: usize, tag: &str, expect_r: bool, expect_w: 
     let idx = if f.is_array() { "0, " } else { "" };
     let idx_only = if f.is_array() { "0" } else { "" };
     let a = arg_expr(l, &f.ty);
-    vec![
-        Probe { name: format!("get-{}", tag), code: format!("pub fn g_{}(s: &S) {{ let _ = s.{}({}); }}", m, f.name, idx_only), must_compile: expect_r, what: format!("getter of {:?} field {}", f.access, f.name) },
-        Probe { name: format!("with-{}", tag), code: format!("pub fn w_{}(s: &S) -> S {{ s.with_{}({}{}) }}", m, m, idx, a), must_compile: expect_w, what: format!("with_ of {:?} field {}", f.access, f.name) },
-        Probe { name: format!("set-{}", tag), code: format!("pub fn s_{}(s: &mut S) {{ s.set_{}({}{}); }}", m, m, idx, a), must_compile: expect_w, what: format!("set_ of {:?} field {}", f.access, f.name) },
-    ]
+    // methods the *other* fields legitimately generate: a field named `set_f0` has the getter `set_f0`, so
+    // "set_f0 is absent" cannot be probed for a read-only field `f0` next to it (the call could resolve to that
+    // getter and compile, e.g. `s.set_f0(1)` with an array field `set_f0` taking an index)
+    let mut others = std::collections::HashSet::new();
+    for (j, g) in l.fields.iter().enumerate() {
+        if j == fi {
+            continue;
+        }
+        let gm = method_name(g);
+        if g.access.readable() {
+            others.insert(gm.clone());
+        }
+        if g.access.writable() {
+            others.insert(format!("with_{}", gm));
+            others.insert(format!("set_{}", gm));
+        }
+    }
+    let all = vec![
+        (m.clone(), Probe { name: format!("get-{}", tag), code: format!("pub fn g_{}(s: &S) {{ let _ = s.{}({}); }}", m, f.name, idx_only), must_compile: expect_r, what: format!("getter of {:?} field {}", f.access, f.name) }),
+        (format!("with_{}", m), Probe { name: format!("with-{}", tag), code: format!("pub fn w_{}(s: &S) -> S {{ s.with_{}({}{}) }}", m, m, idx, a), must_compile: expect_w, what: format!("with_ of {:?} field {}", f.access, f.name) }),
+        (format!("set_{}", m), Probe { name: format!("set-{}", tag), code: format!("pub fn s_{}(s: &mut S) {{ s.set_{}({}{}); }}", m, m, idx, a), must_compile: expect_w, what: format!("set_ of {:?} field {}", f.access, f.name) }),
+    ];
+    all.into_iter().filter(|(name, p)| p.must_compile || !others.contains(name)).map(|(_, p)| p).collect()
 }
 
 pub fn run_c17(rc: &RunCtx) -> Outcome {
@@ -590,7 +646,7 @@ pub fn run_c17(rc: &RunCtx) -> Outcome {
         l2.fields.extend(twins);
         layouts.push(l2);
     }
-    for (j, l) in sys_long_lists().into_iter().step_by(3).chain(sys_deep_nesting(false)).enumerate() {
+    for (j, l) in sys_long_lists().into_iter().step_by(3).chain(sys_deep_nesting(false)).chain(sys_name_pairs()).enumerate() {
         let acc = [Access::R, Access::W, Access::RW, Access::None][j % 4];
         let mut l2 = l.clone();
         let mut twins = Vec::new();
@@ -715,7 +771,9 @@ pub fn run_c17(rc: &RunCtx) -> Outcome {
     let mut nontrivial = std::collections::BTreeSet::new();
     let mut hist: BTreeMap<String, u64> = BTreeMap::new();
     let mut debug_rejected = 0u64;
-    for mp in ["dev"] {
+    // "dev-tests": the same crates checked as test targets (`cargo check --tests`, i.e. with cfg(test) set in the
+    // crate that declares the bitfield): the API surface must not depend on it
+    for mp in ["dev", "dev-tests"] {
         let dv = check_decls(rc, "c17decl", &decl_items, mp);
         let mut accepted = Vec::new();
         for it in &items {
